@@ -3630,6 +3630,43 @@ Print Assumptions loopir_arma2psd_tie.
 THEOREMS['arma2psd'] = dict(proof=ARMA2PSD_PROOF, theorems=ARMA2PSD_THEOREMS, block=ARMA2PSD_BLOCK)
 
 
+# ---------------------------------------------------------------- minvar, the whole function: translation + theorem by COMPOSITION (T8)
+MINVAR_PROOF = 'Proofs/LoopIRMinvar.v'
+MINVAR_THEOREMS = ['loopir_minvar_model', 'loopir_minvar_default_nfft', 'loopir_minvar_tie']
+MINVAR_BLOCK = """
+(* The program of minvar regenerated on this run - errors.is_positive_integer (twice) and burg.arburg embedded as calls, the psi loop, numpy.fft.fft
+   (the DFT specification of Theory/Dft.v over the hidden twiddle parameter), sampling / numpy.real(psi) - is, term for term, the one
+   Proofs/LoopIRMinvar.v is about: its theorems apply.  (The theorem composes arburg_ir_nocrit through the call semantics.) *)
+Require Import Spectrum.Theory.Ops Spectrum.Theory.Vec Spectrum.Theory.Dft Spectrum.Model.Minvar Spectrum.Model.LoopIRTie Spectrum.Model.LoopIRVec
+               Spectrum.Proofs.LoopIRMinvar.
+Lemma prog_minvar_is_ref : prog_minvar = prog_minvar_ref.
+Proof. reflexivity. Qed.
+(* for EVERY twiddle family, any data (any length, both dtype tags), ANY integer order, sampling given or omitted, every NFFT (a natural number):
+   the run returns / raises exactly what Model.Minvar.minvar and Model.Burg.arburg say (minvar_spec of Model/LoopIRVec.v): SpectrumError for
+   order < 0, ValueError when arburg(X, order-1) raises, IndexError for NFFT < order, else (PSD, A with the leading 1, k).  No side condition. *)
+Theorem loopir_minvar_model :
+  forall (F : Type) (OF : Ops F) (L : Laws OF) (feq : F -> F -> bool) (stop : Z -> F -> F -> bool) (tw : nat -> Z -> F)
+         (isreal : bool) (x : list F) (order : Z) (s : option F) (nfft : nat),
+  run feq stop prog_minvar (minvar_args tw isreal x order s (Some nfft)) = minvar_spec tw x order s nfft.
+Proof. intros. rewrite prog_minvar_is_ref. apply minvar_ir_run. Qed.
+(* NFFT omitted: the Python default default_NFFT = 4096 applies *)
+Theorem loopir_minvar_default_nfft :
+  forall (F : Type) (OF : Ops F) (L : Laws OF) (feq : F -> F -> bool) (stop : Z -> F -> F -> bool) (tw : nat -> Z -> F)
+         (isreal : bool) (x : list F) (order : Z) (s : option F),
+  run feq stop prog_minvar (minvar_args tw isreal x order s None) = minvar_spec tw x order s 4096.
+Proof. intros. rewrite prog_minvar_is_ref. apply minvar_ir_run_default. Qed.
+Theorem loopir_minvar_tie :
+  forall (F : Type) (OF : Ops F) (L : Laws OF) (feq : F -> F -> bool), (forall a, feq a a = true) ->
+  forall (tw : nat -> Z -> F) (isreal : bool) (x : list F) (order : Z) (s : option F) (nfft : nat),
+  tie_minvar feq tw prog_minvar isreal x order s nfft = true.
+Proof. intros. rewrite prog_minvar_is_ref. apply minvar_ir_tie; assumption. Qed.
+Print Assumptions loopir_minvar_model.
+Print Assumptions loopir_minvar_default_nfft.
+Print Assumptions loopir_minvar_tie.
+"""
+THEOREMS['minvar'] = dict(proof=MINVAR_PROOF, theorems=MINVAR_THEOREMS, block=MINVAR_BLOCK)
+
+
 def reference_text_in(proof, name):
     """the program text of <name> that <proof> was proved about (between its BEGIN/END GENERATED <name> markers)"""
     t = open(os.path.join(vlib.COQ, proof)).read()
